@@ -281,6 +281,28 @@ static void do_roundtrip(long L)
         }
     }
 }
+/* encoders at lengths whose high bits matter (a length narrowed to 8 or 16 bits changes the remainder / the length formula): exact-size output,
+ * reference text, decode back */
+static void do_enc_long(long idx)
+{
+    static const size_t LL[] = { 254, 255, 256, 257, 258, 259, 300, 510, 511, 512, 513, 514, 767, 768, 769, 1000, 4095, 4096, 4097, 65535, 65536, 65537, 65538, 70000 };
+    size_t len = LL[idx], wl, i; unsigned char *bin = malloc(len + 1), *back = malloc(len + 1); char *want = malloc(len * 2 + 16), *got = malloc(len * 2 + 64); int v; char key[96]; size_t bl;
+    vf_pat(bin, len, PAT_R1, 31 + len);
+    for (v = 0; v < 4; v++) {
+        wl = ref_b64enc(want, bin, len, VARIANTS[v]); n_eval++; n_nontriv++;
+        snprintf(key, sizeof key, "bin2base64/v=%d/len=%zu", VARIANTS[v], len);
+        if (sodium_base64_encoded_len(len, VARIANTS[v]) != wl + 1 || sodium_base64_ENCODED_LEN(len, VARIANTS[v]) != wl + 1) vf_fail(key, "wrong encoded length");
+        memset(got, CANARY, wl + 40);
+        if (sodium_bin2base64(got + 8, wl + 1, bin, len, VARIANTS[v]) != got + 8 || memcmp(got + 8, want, wl + 1)) { vf_fail(key, "encoded text differs from the reference"); continue; }
+        for (i = 0; i < 8; i++) if ((unsigned char) got[i] != CANARY || (unsigned char) got[8 + wl + 1 + i] != CANARY) { vf_fail(key, "wrote outside maxlen"); break; }
+        if (sodium_base642bin(back, len, want, wl, NULL, &bl, NULL, VARIANTS[v]) != 0 || bl != len || memcmp(back, bin, len)) vf_fail(key, "decoding the reference text does not give the bytes back");
+    }
+    { static const char hx[] = "0123456789abcdef"; for (i = 0; i < len; i++) { want[2 * i] = hx[bin[i] >> 4]; want[2 * i + 1] = hx[bin[i] & 15]; } want[2 * len] = 0; n_eval++; n_nontriv++;
+      snprintf(key, sizeof key, "bin2hex/len=%zu", len);
+      if (sodium_bin2hex(got, 2 * len + 1, bin, len) != got || memcmp(got, want, 2 * len + 1)) vf_fail(key, "text mismatch");
+      if (sodium_hex2bin(back, len, want, 2 * len, NULL, &bl, NULL) != 0 || bl != len || memcmp(back, bin, len)) vf_fail(key, "decoding does not give the bytes back"); }
+    free(bin); free(back); free(want); free(got);
+}
 /* every byte string of length 1..3 through the encoders and back (first byte = worker index) */
 static void do_enc_short(long first)
 {
@@ -330,6 +352,8 @@ int main(void)
     vf_parallel(16, 0, thorough ? 100 : 71, do_roundtrip, fin);
     printf("INFO t_rt %ld\n", (long) time(NULL));
     vf_parallel(16, 0, 256, do_enc_short, fin); printf("INFO t_enc %ld\n", (long) time(NULL));
+    snprintf(vf_ctx, sizeof vf_ctx, "c15 encoders at long lengths"); vf_crash_cb = NULL;
+    vf_parallel(16, 0, 24, do_enc_long, fin);
     misuse_probes(); fin();
     vf_sample("base642bin variant=ORIGINAL text=\"QUJD\" capacity=2 end=given -> must fail (needs 3 bytes), nothing written past 2");
     vf_sample("base642bin variant=URLSAFE text=\"QQ=:=\" ignore=\":\" -> 1 byte 0x41, end at 5 (ignored char inside the padding)");
